@@ -348,12 +348,69 @@ func c18SeedRun(a c18Scenario, o *c18Out) *eng.Fail {
 	return nil
 }
 
+// c18DefaultsRun: a parameters object obtained from GetDefaultParameters belongs to the caller. Editing it (every
+// tunable, a custom key, a colour-transform matrix) without ever passing it to the codec must change nothing anyone
+// else can see: the next defaults object, the codec instance, the package state, the result of Encode with nil
+// parameters and with a fresh defaults object.
+func c18DefaultsRun(a c18Scenario, o *c18Out) *eng.Fail {
+	ts := allTS()[a.TS]
+	cd, ok := gcodec.GetGlobalRegistry().GetCodec(ts.TS)
+	if !ok {
+		return eng.Failf("codec-not-registered:"+ts.Name, "")
+	}
+	w, h, spp := a.dims()
+	g0 := GlobalsDigest()
+	c0 := deepKey(reflect.ValueOf(cd))
+	d0 := deepKey(reflect.ValueOf(cd.GetDefaultParameters()))
+	fx, err := c18FixFmt(ts, cd, 1, a.Fmt, spp, w, h, 0)
+	if err != nil {
+		o.Declined = true
+		return nil
+	}
+	before := [2]c18Result{c18Call(cd, fx, 0, 'E', nil, nil), c18Call(cd, fx, 0, 'E', cd.GetDefaultParameters(), nil)}
+	mine := richParams(ts, cd)
+	if mine == nil {
+		o.Declined = true
+		return nil
+	}
+	id3 := [][]float64{{0, 0, 1}, {0, 1, 0}, {1, 0, 0}}
+	for _, kv := range []struct {
+		k string
+		v any
+	}{{"x-verif-custom", 12345}, {"mctMatrix", id3}, {"inverseMctMatrix", id3}, {"mctReversible", true}, {"rateLevels", []int{7, 3}}, {"subbandSteps", []float64{9, 9, 9, 9}}} {
+		mine.SetParameter(kv.k, kv.v)
+	}
+	if rl, ok := mine.GetParameter("rateLevels").([]int); ok && len(rl) > 0 {
+		rl[0] = 99 // writing through a slice the caller owns
+	}
+	if d1 := deepKey(reflect.ValueOf(cd.GetDefaultParameters())); d1 != d0 {
+		return eng.Failf(ts.Name+"|defaults-object-shared", "after another caller edited its own defaults object, GetDefaultParameters returns %s instead of %s", d1, d0)
+	}
+	if c1 := deepKey(reflect.ValueOf(cd)); c1 != c0 {
+		return eng.Failf(ts.Name+"|codec-state-written", "editing a private defaults object changed the codec instance")
+	}
+	after := [2]c18Result{c18Call(cd, fx, 0, 'E', nil, nil), c18Call(cd, fx, 0, 'E', cd.GetDefaultParameters(), nil)}
+	for i := range after {
+		if !after[i].equal(before[i]) {
+			return eng.Failf(ts.Name+"|result-depends-on-another-callers-parameters", "Encode (%s) returns a different result after another caller edited its own, never passed, defaults object", []string{"nil parameters", "fresh defaults object"}[i])
+		}
+	}
+	if d := diffDigests(g0, GlobalsDigest()); len(d) > 0 {
+		return eng.Failf(ts.Name+"|package-state-written", "package-level variables changed: %v", d)
+	}
+	o.Execs, o.Outcomes = 1, 1
+	return nil
+}
+
 func c18Run(a c18Scenario, o *c18Out) *eng.Fail {
 	if o == nil {
 		o = &c18Out{}
 	}
 	if a.Seed != "" {
 		return c18SeedRun(a, o)
+	}
+	if a.Ops == "P" {
+		return c18DefaultsRun(a, o)
 	}
 	ts := allTS()[a.TS]
 	cd, ok := gcodec.GetGlobalRegistry().GetCodec(ts.TS)
@@ -633,6 +690,12 @@ func c18(c *eng.Ctx) {
 			}
 		}
 	}
+	// private defaults objects stay private
+	for ti := range allTS() {
+		for _, spp := range []int{1, 3} {
+			jobs = append(jobs, c18Scenario{TS: ti, Ops: "P", SPP: spp, W: 9, H: 10})
+		}
+	}
 	// valid streams from other sources through every codec of their family
 	for _, sd := range allSeeds() {
 		if sd.DevHi != 0 || len(sd.Data) > 4096 {
@@ -740,7 +803,7 @@ func c18(c *eng.Ctx) {
 	if !done {
 		c.Capped(fmt.Sprintf("scenario list cut by deadline or worker death: %d of %d scenarios completed", completed.Load(), len(jobs)))
 	}
-	c.Subspace("schedule-exploration", c.Evals()-before, done, fmt.Sprintf("%d scenarios, each in a fresh process: 14 codecs x {EE,ED,DD} x 4 parameter modes (preemption bound 2 in quick, every schedule in thorough); EED (bound 1 / 2); every format x SPP {1,3} x sizes {3x2,9x10,17x9,1x7,1x1} x {E,D} x 4 parameter modes solo with state digests; every valid E3 seed stream (reference encoders, preset parameters, spliced segments, ROI/MCT/tiles/layers) decoded twice through every codec of its family with state digests, ED interleavings per format; heterogeneous scenarios {EE,ED,DE,DD} x 2 format offsets x SPP x {nil, shared} parameters", len(jobs)))
+	c.Subspace("schedule-exploration", c.Evals()-before, done, fmt.Sprintf("%d scenarios, each in a fresh process: 14 codecs x {EE,ED,DD} x 4 parameter modes (preemption bound 2 in quick, every schedule in thorough); EED (bound 1 / 2); every format x SPP {1,3} x sizes {3x2,9x10,17x9,1x7,1x1} x {E,D} x 4 parameter modes solo with state digests; every valid E3 seed stream (reference encoders, preset parameters, spliced segments, ROI/MCT/tiles/layers) decoded twice through every codec of its family with state digests; a defaults object edited by its owner (every tunable, custom keys, matrices) and never passed must leave the next defaults object, the codec, the package state and Encode(nil) unchanged, ED interleavings per format; heterogeneous scenarios {EE,ED,DE,DD} x 2 format offsets x SPP x {nil, shared} parameters", len(jobs)))
 	// heterogeneous scenarios once more, each from a fresh process (4 at a time): nothing an earlier scenario left behind
 	// can make the solo runs and the interleaved runs agree by being polluted alike
 	before = c.Evals()
